@@ -185,6 +185,20 @@ impl W {
             }
         }
     }
+    /// like init_pos, for diagrams in which a piece stands unsupported on a trap (`I 3`): the parser accepts them;
+    /// compared model-vs-code and watched for panics, the capture monitors are not applied to them
+    pub fn init_pos_raw(&mut self, text: &str) -> Option<GameState> {
+        let mut v = vec![3];
+        v.extend(codepoints(text));
+        line(&mut self.out, 'I', &v);
+        match parse_state_guarded(text) {
+            Ok(Ok(gs)) => Some(gs),
+            _ => {
+                self.out.push_str("X I\n");
+                None
+            }
+        }
+    }
     /// a state built through the public constructors: board words, side, move number, step (number
     /// of previous boards, all equal to the board), status, captured flag; hashes are from-scratch
     #[allow(clippy::too_many_arguments)]
@@ -895,6 +909,358 @@ pub fn g_built(w: &mut W, rng: &mut Rng, n_cases: u64) {
 }
 
 // ---------------------------------------------------------------------------------------
+// G-trap: trap neighbourhoods x step x status.  A trap with a random occupant, random contents on its four
+// neighbours and a sparse second ring; the state is assembled at a random step (0..3) with a fitting status
+// (none / pull possible from a square next to a mover's piece / push pending next to an enemy piece), and EVERY
+// rule-legal action is applied (one case per action).  Captures, the capture preview, the incremental hash and
+// the trap scan are thus compared for the first, a middle and the LAST step of a turn and for steps of own pieces,
+// pull completions and push completions alike.
+
+pub fn fit_status(cells: &[Cell; 64], gold: bool, step: u64, rng: &mut Rng) -> (u64, u64, u64) {
+    let own: Vec<usize> = (0..64).filter(|i| matches!(cells[*i], Some((g, k)) if g == gold && k != Piece::Rabbit)).collect();
+    let enemy: Vec<usize> = (0..64).filter(|i| matches!(cells[*i], Some((g, k)) if g != gold && k != Piece::Elephant)).collect();
+    let want = if step == 0 { 0 } else { rng.below(3) };
+    if want == 1 && !own.is_empty() {
+        let t = own[rng.below(own.len() as u64) as usize];
+        let free: Vec<usize> = nbrs(t).into_iter().filter(|j| cells[*j].is_none()).collect();
+        if !free.is_empty() {
+            return (1, free[rng.below(free.len() as u64) as usize] as u64, piece_code(cells[t].unwrap().1));
+        }
+    } else if want == 2 && !enemy.is_empty() {
+        let t = enemy[rng.below(enemy.len() as u64) as usize];
+        let free: Vec<usize> = nbrs(t).into_iter().filter(|j| cells[*j].is_none()).collect();
+        if !free.is_empty() {
+            return (2, free[rng.below(free.len() as u64) as usize] as u64, piece_code(cells[t].unwrap().1));
+        }
+    }
+    (0, 0, 0)
+}
+
+pub fn g_trap(w: &mut W, rng: &mut Rng, n_states: u64) {
+    let kinds = [Piece::Rabbit, Piece::Cat, Piece::Dog, Piece::Horse, Piece::Camel, Piece::Elephant];
+    for _ in 0..n_states {
+        let mut cells: [Cell; 64] = [None; 64];
+        let mut left = [[8u64, 2, 2, 2, 1, 1], [8u64, 2, 2, 2, 1, 1]];
+        let trap = TRAPS[rng.below(4) as usize];
+        let mut put = |cells: &mut [Cell; 64], sq: usize, rng: &mut Rng, rabbit_w: u64| {
+            for _ in 0..6 {
+                let side = rng.below(2) as usize;
+                let k = if rng.chance(rabbit_w, 100) { 0 } else { 1 + rng.below(5) as usize };
+                if left[side][k] == 0 {
+                    continue;
+                }
+                if k == 0 && ((side == 0 && sq < 8) || (side == 1 && sq >= 56)) {
+                    continue;
+                }
+                left[side][k] -= 1;
+                cells[sq] = Some((side == 0, kinds[k]));
+                return;
+            }
+        };
+        if rng.chance(75, 100) {
+            put(&mut cells, trap, rng, 15);
+        }
+        let ring1 = nbrs(trap);
+        for &n in ring1.iter() {
+            if rng.chance(55, 100) {
+                put(&mut cells, n, rng, 25);
+            }
+        }
+        for &n in ring1.iter() {
+            for m in nbrs(n) {
+                if m != trap && cells[m].is_none() && rng.chance(30, 100) {
+                    put(&mut cells, m, rng, 25);
+                }
+            }
+        }
+        // both sides keep a rabbit somewhere far away so that no result interferes
+        for (sq, gold) in [(6 * 8, true), (8 + 7, false)] {
+            if cells[sq].is_none() {
+                cells[sq] = Some((gold, Piece::Rabbit));
+            }
+        }
+        legalize(&mut cells);
+        let gold = rng.chance(1, 2);
+        let step = rng.below(4);
+        let status = fit_status(&cells, gold, step, rng);
+        let wds = words_of(&cells);
+        let trapped = rng.chance(1, 4);
+        // a turn-start hash that differs from the current position (so that a pass is possible)
+        let other = Zobrist::from_piece_board(PieceBoard::new(0, 0, 0, 0, 0, 0, 0).piece_board(), gold, 0);
+        let mv = 2 + rng.below(5);
+        w.begin("trap");
+        let gs = match w.init_built(wds, gold, mv, step, status, trapped, other, &[other]) {
+            Some(g) => g,
+            None => {
+                w.end();
+                continue;
+            }
+        };
+        w.watch(&gs, 0);
+        w.stat(&format!("trap.step{}.status{}", step, status.0), 1);
+        let acts = catch_unwind(AssertUnwindSafe(|| gs.valid_actions_no_rep())).unwrap_or_default();
+        w.end();
+        for a in acts {
+            w.begin("trap");
+            if let Some(g2) = w.init_built(wds, gold, mv, step, status, trapped, other, &[other]) {
+                if let Some(n) = w.act(&g2, &a) {
+                    w.watch(&n, 0);
+                    if n.piece_board().bits_by_piece_type(Piece::Rabbit).count_ones() as u64
+                        + (1..6).map(|k| n.piece_board().bits_by_piece_type(kinds[k]).count_ones() as u64).sum::<u64>()
+                        < cells.iter().filter(|c| c.is_some()).count() as u64
+                    {
+                        w.stat(&format!("trap.captures.step{}.status{}", step, status.0), 1);
+                    }
+                }
+            }
+            w.end();
+        }
+    }
+}
+
+// ---------------------------------------------------------------------------------------
+// G-matrix: the scenario matrix  (kind of step) x (what the step does at a trap) x (step number of the turn).
+//   kind of step: own step | own step while a pull is possible (e.g. following into the vacated square) |
+//                 push start (enemy piece moved first) | pull completion (enemy piece) | push completion (own piece)
+//   at the trap : nothing | the moved piece lands on a trap without a friendly neighbour |
+//                 the moved piece was the only friendly neighbour of a friendly piece standing on a trap
+//   step number : every step of the turn at which that kind of step can occur (0..3)
+// Each cell is built directly (minimal pieces + random extras, sometimes a supported piece of either side on
+// another trap, any kind incl. elephants on the trap), assembled through the public constructors with the status
+// that the kind of step needs, and every rule-legal action of the state is applied (one case each).
+
+fn dir_between(m: usize, d: usize) -> Option<Direction> {
+    let (mr, mc, dr, dc) = (m / 8, m % 8, d / 8, d % 8);
+    if mc == dc && dr + 1 == mr {
+        Some(Direction::Up)
+    } else if mc == dc && dr == mr + 1 {
+        Some(Direction::Down)
+    } else if mr == dr && dc + 1 == mc {
+        Some(Direction::Left)
+    } else if mr == dr && dc == mc + 1 {
+        Some(Direction::Right)
+    } else {
+        None
+    }
+}
+
+pub fn g_matrix(w: &mut W, rng: &mut Rng, variants: u64) {
+    for variant in 0..variants {
+        for mtype in 0..5u64 {
+            for ctype in 0..3u64 {
+                for step in 0..4u64 {
+                    // which steps of the turn allow this kind of step
+                    let ok = match mtype {
+                        0 => true,
+                        1 => step >= 1,
+                        2 => step <= 2,
+                        _ => step >= 1,
+                    };
+                    if !ok {
+                        continue;
+                    }
+                    let gold = rng.chance(1, 2);
+                    let mut cells: [Cell; 64] = [None; 64];
+                    let trap = TRAPS[rng.below(4) as usize];
+                    let ring = nbrs(trap);
+                    // the moved piece M at m, moving to d
+                    let m_is_own = mtype == 0 || mtype == 1 || mtype == 4;
+                    let m_owner = if m_is_own { gold } else { !gold };
+                    let (m, d) = match ctype {
+                        1 => (ring[rng.below(4) as usize], trap),
+                        2 => {
+                            let m = ring[rng.below(4) as usize];
+                            let ds: Vec<usize> = nbrs(m).into_iter().filter(|x| *x != trap).collect();
+                            (m, ds[rng.below(ds.len() as u64) as usize])
+                        }
+                        _ => {
+                            let m = rng.below(64) as usize;
+                            let ds = nbrs(m);
+                            (m, ds[rng.below(ds.len() as u64) as usize])
+                        }
+                    };
+                    // kinds: M weaker than the partner where one is needed
+                    let km = match mtype {
+                        2 | 3 => rng.below(5) as usize,       // enemy piece moved by push/pull: not an elephant
+                        4 => 1 + rng.below(5) as usize,       // pusher: stronger than something
+                        1 => rng.below(5) as usize,
+                        _ => rng.below(6) as usize,
+                    };
+                    if km == 0 {
+                        // rabbits do not step backwards: choose a destination that is not backward for the owner
+                        let back = if m_owner { d / 8 > m / 8 } else { d / 8 < m / 8 };
+                        if back && m_is_own {
+                            continue;
+                        }
+                    }
+                    cells[m] = Some((m_owner, KINDS[km]));
+                    if ctype == 2 {
+                        // friendly piece on the trap, any kind (elephants too), M its only friendly neighbour
+                        cells[trap] = Some((m_owner, KINDS[rng.below(6) as usize]));
+                        for &n in ring.iter() {
+                            if n != m && cells[n].is_none() && rng.chance(40, 100) {
+                                cells[n] = Some((!m_owner, KINDS[rng.below(3) as usize]));
+                            }
+                        }
+                    }
+                    if ctype == 1 {
+                        for &n in ring.iter() {
+                            if n != m && cells[n].is_none() && rng.chance(40, 100) {
+                                cells[n] = Some((!m_owner, KINDS[rng.below(3) as usize]));
+                            }
+                        }
+                    }
+                    if cells[d].is_some() {
+                        continue;
+                    }
+                    // the partner piece and the status
+                    let mut status = (0u64, 0u64, 0u64);
+                    let free_nbr = |cells: &[Cell; 64], x: usize, avoid: usize, rng: &mut Rng| -> Option<usize> {
+                        let f: Vec<usize> = nbrs(x).into_iter().filter(|j| *j != avoid && cells[*j].is_none() && !TRAPS.contains(j)).collect();
+                        if f.is_empty() {
+                            None
+                        } else {
+                            Some(f[rng.below(f.len() as u64) as usize])
+                        }
+                    };
+                    match mtype {
+                        1 | 3 => {
+                            // a stronger own piece Y has just left d: it stands on a neighbour of d
+                            let ky = (km + 1 + rng.below((5 - km) as u64) as usize).min(5).max(1);
+                            if let Some(y) = free_nbr(&cells, d, m, rng) {
+                                cells[y] = Some((gold, KINDS[ky]));
+                                status = (1, d as u64, piece_code(KINDS[ky]));
+                            } else {
+                                continue;
+                            }
+                        }
+                        2 => {
+                            // an unfrozen stronger own piece next to M
+                            let kp = (km + 1 + rng.below((5 - km) as u64) as usize).min(5);
+                            if let Some(y) = free_nbr(&cells, m, d, rng) {
+                                cells[y] = Some((gold, KINDS[kp]));
+                            } else {
+                                continue;
+                            }
+                        }
+                        4 => {
+                            // an enemy piece weaker than M has just been pushed out of d
+                            let ke = rng.below(km as u64) as usize;
+                            if let Some(y) = free_nbr(&cells, d, m, rng) {
+                                cells[y] = Some((!gold, KINDS[ke]));
+                                status = (2, d as u64, piece_code(KINDS[ke]));
+                            } else {
+                                continue;
+                            }
+                        }
+                        _ => {}
+                    }
+                    // extras: a supported piece of either side on another trap, a few random pieces
+                    if rng.chance(60, 100) {
+                        let t2 = TRAPS[rng.below(4) as usize];
+                        if t2 != trap && cells[t2].is_none() {
+                            let o = rng.chance(1, 2);
+                            let sup = nbrs(t2)[rng.below(4) as usize];
+                            if cells[sup].is_none() && sup != d {
+                                cells[t2] = Some((o, KINDS[1 + rng.below(5) as usize]));
+                                cells[sup] = Some((o, KINDS[1 + rng.below(4) as usize]));
+                            }
+                        }
+                    }
+                    for _ in 0..rng.below(4) {
+                        let sq = rng.below(64) as usize;
+                        if cells[sq].is_none() && sq != d && !TRAPS.contains(&sq) && !ring.contains(&sq) {
+                            cells[sq] = Some((rng.chance(1, 2), KINDS[1 + rng.below(4) as usize]));
+                        }
+                    }
+                    for (sq, g) in [(6 * 8, true), (8 + 7, false)] {
+                        if cells[sq].is_none() && sq != d {
+                            cells[sq] = Some((g, Piece::Rabbit));
+                        }
+                    }
+                    // keep the intended capture set-up: only remove trap pieces that are ALREADY unsupported
+                    legalize(&mut cells);
+                    if cells[m].is_none() || cells[d].is_some() {
+                        continue;
+                    }
+                    let wds = words_of(&cells);
+                    let trapped = rng.chance(1, 5);
+                    let other = Zobrist::from_piece_board(PieceBoard::new(0, 0, 0, 0, 0, 0, 0).piece_board(), gold, 0);
+                    let mv = 2 + rng.below(5);
+                    let intended = dir_between(m, d).map(|dd| Action::Move(Square::from_index(m as u8), dd));
+                    w.begin("matrix");
+                    let gs = match w.init_built(wds, gold, mv, step, status, trapped, other, &[other]) {
+                        Some(g) => g,
+                        None => {
+                            w.end();
+                            continue;
+                        }
+                    };
+                    w.watch(&gs, 0);
+                    let acts = catch_unwind(AssertUnwindSafe(|| gs.valid_actions_no_rep())).unwrap_or_default();
+                    let hit = intended.map(|a| acts.contains(&a)).unwrap_or(false);
+                    w.stat(&format!("matrix.kind{}.trap{}.step{}.{}", mtype, ctype, step, if hit { "intended_offered" } else { "intended_not_offered" }), 1);
+                    w.end();
+                    let _ = variant;
+                    for a in acts {
+                        w.begin("matrix");
+                        if let Some(g2) = w.init_built(wds, gold, mv, step, status, trapped, other, &[other]) {
+                            if let Some(n) = w.act(&g2, &a) {
+                                w.watch(&n, 0);
+                            }
+                        }
+                        w.end();
+                    }
+                }
+            }
+        }
+    }
+}
+
+// ---------------------------------------------------------------------------------------
+// G-illegal: start diagrams with one to three pieces standing unsupported on traps (the parser accepts them);
+// every query on the start state and every offered action from it.
+
+pub fn g_illegal(w: &mut W, rng: &mut Rng, n: u64) {
+    for _ in 0..n {
+        let cl = rng.chance(1, 2);
+        let mut cells = random_position(rng, 4, 14, cl);
+        let k = 1 + rng.below(3);
+        for _ in 0..k {
+            let t = TRAPS[rng.below(4) as usize];
+            let o = rng.chance(1, 2);
+            cells[t] = Some((o, KINDS[rng.below(6) as usize]));
+            for nb in nbrs(t) {
+                if matches!(cells[nb], Some((g, _)) if g == o) {
+                    cells[nb] = None;
+                }
+            }
+        }
+        let text = diagram(&cells, 2 + rng.below(5), rng.chance(1, 2));
+        w.begin("illegal");
+        let gs = match w.init_pos_raw(&text) {
+            Some(g) => g,
+            None => {
+                w.end();
+                continue;
+            }
+        };
+        w.watch(&gs, 0);
+        let acts = catch_unwind(AssertUnwindSafe(|| gs.valid_actions_no_rep())).unwrap_or_default();
+        w.end();
+        for a in acts.iter().take(12) {
+            w.begin("illegal");
+            if let Some(g2) = w.init_pos_raw(&text) {
+                if let Some(nx) = w.act(&g2, a) {
+                    w.watch(&nx, 0);
+                }
+            }
+            w.end();
+        }
+    }
+}
+
+// ---------------------------------------------------------------------------------------
 // G-local: exhaustive small patterns
 
 fn expand1(w: &mut W, gen: &str, text: &str) {
@@ -1345,6 +1711,22 @@ pub fn g_str_small(w: &mut W, seed: u64, shard: u64, nshards: u64, thorough: boo
         for v in 0..4 {
             line(&mut w.out, 'Y', &[3, v]);
             line(&mut w.out, 'Z', &run_printer(3, v));
+        }
+        // Square::from_bit_board on arbitrary words: empty, single bits, several bits
+        let mut r = Rng::new(seed, "from_bit_board", 0);
+        let mut xs: Vec<u64> = vec![0, 3, 6, u64::MAX, 1 << 63, (1 << 63) | 1, 0x0000240000240000];
+        for _ in 0..200 {
+            let a = r.next();
+            xs.push(a);
+            xs.push(a & r.next() & r.next());
+            xs.push((1u64 << r.below(64)) | (1u64 << r.below(64)));
+        }
+        for x in xs {
+            line(&mut w.out, 'G', &[64, x]);
+            match catch_unwind(AssertUnwindSafe(|| Square::from_bit_board(x).index() as u64)) {
+                Ok(i) => line(&mut w.out, 'Z', &[2, i]),
+                Err(_) => line(&mut w.out, 'Z', &[1]),
+            }
         }
         w.stat("printed.values", 263 + 64 + 6 + 4);
     }
